@@ -101,8 +101,10 @@ def run(ctx):
     rng = ctx.rng
     cases, meta = [], []
 
-    def data(n, p, big=False):
+    def data(n, p, big=False, flat=False):
         v = np.asarray([[rng.randint(-3, 3) for _ in range(p)] for _ in range(n)], dtype=float)
+        if flat:
+            return np.asarray([[rng.randint(0, 1) for _ in range(p)] for _ in range(n)], dtype=float)      # nothing to detect: empty sparse outputs
         if big:
             v = v * 1.0e7 + 5.0e7            # exactly representable in int64 and float64; squares of partial sums overflow int64
         a = rng.randint(6, n - 14)
@@ -113,6 +115,8 @@ def run(ctx):
 
     def compare(what, name, rep, ref_out, mk_out, inp):
         cont, dt, ix, co = rep
+        if APPROX["on"] and what in ("predict", "transform", "update"):
+            return True
         try:
             out = mk_out()
             same = out == ref_out
@@ -128,10 +132,10 @@ def run(ctx):
         return same
 
     reps = 1 if ctx.quick() else 3
-    for rep_i in range(reps + 1):
+    for rep_i in range(reps + 2):
         for p in (1, 2):
-            n = rng.randint(36, 50) if rep_i < reps else 120
-            vals = data(n, p, big=(rep_i == reps))
+            n = rng.randint(36, 50) if rep_i != reps else 120
+            vals = data(n, p, big=(rep_i == reps), flat=(rep_i == reps + 1))
             APPROX["on"] = (rep_i == reps)
             half = n // 2
             inp0 = {"n": n, "p": p, "values": vals.tolist()}
@@ -194,7 +198,9 @@ def run(ctx):
             # ---- scorers ----
             scorers = [("L2Cost", lambda: L2Cost(), 2, 1), ("GaussianVarCost", lambda: GaussianVarCost(), 2, 2), ("GaussianCovCost", lambda: GaussianCovCost(), 2, p + 1),
                        ("CUSUM", lambda: CUSUM(), 3, 1), ("ChangeScore(L2Cost)", lambda: ChangeScore(L2Cost()), 3, 1), ("L2Saving", lambda: L2Saving(), 2, 1),
-                       ("Saving(L2Cost(0))", lambda: Saving(L2Cost(0.0)), 2, 1), ("LocalAnomalyScore(L2Cost)", lambda: LocalAnomalyScore(L2Cost()), 4, 1)]
+                       ("Saving(L2Cost(0))", lambda: Saving(L2Cost(0.0)), 2, 1), ("LocalAnomalyScore(L2Cost)", lambda: LocalAnomalyScore(L2Cost()), 4, 1),
+                       ("L2Cost(2.5)", lambda: L2Cost(2.5), 2, 1), ("GaussianVarCost((0.5, 1.5))", lambda: GaussianVarCost((0.5, 1.5)), 2, 2),
+                       ("Saving(L2Cost(-1.25))", lambda: Saving(L2Cost(-1.25)), 2, 1)]
             for name, mk, k, ms in scorers:
                 cuts = []
                 for _ in range(5):
